@@ -77,8 +77,8 @@ check("C02", "acknowledged writes survive a crash; recovery yields a history pre
 check("C03", "transactions are all-or-nothing", [
     ob("VerifC03_TxSequential", "pkg/transaction", "symbolic transaction body, commit/rollback, caller buffers overwritten after each call; store equals model; lock released; closed after finish",
        "<=3 ops over 2 keys, optional pre-existing key, buffer reuse on/off"),
-    ob("VerifC03_FailedCommitNoTrace", "pkg/engine", "a commit that fails because one value does not fit a log record (symbolic position, size within [-20,+1] of the limit) leaves no trace, also not after a later write, close and reopen",
-       "3-entry transaction, one oversized entry at position 0..2", reach=("committed", "failed")),
+    ob("VerifC03_FailedCommitNoTrace", "pkg/engine", "a commit that fails because one value does not fit a log record (symbolic position, size within [-20,+1] of the limit) leaves no trace: not for plain reads, not for a later read-only or read-write transaction (which commits nothing of it), not after a later write, close and reopen",
+       "3-entry transaction, one oversized entry at position 0..2; later transaction read-only or read-write", reach=("committed", "failed")),
     ob("VerifC03_CrashInCommit", "pkg/engine", "commit of 2-3 puts, the process dies at any file-system step of the commit (both crash models, torn in-flight write): after recovery all keys of the transaction or none; an acknowledged commit completely. Shapes: small values; values filling two log records completely (batch at the log buffer's capacity); a 40 KB transaction behind a 30 KB write still pending in the log buffer (sync modes none/batch: all-or-nothing only, survival of the acknowledged commit is not promised there)",
        "2-3 keys; crash at every simfs operation inside begin..commit; torn lengths: every length <=24 bytes else 8 representatives; record-filling values with d in 0..1; pending-buffer shape with sync mode none or batch", q={"budget_s": 300}),
     ob("VerifC03_CommitVsReader", "pkg/engine", "a committing transaction (2 keys) vs. a reader doing two plain gets in either order or inside a read-only transaction: first read new => second read new; a read-only transaction sees one state",
@@ -90,6 +90,8 @@ check("C04", "transactions are serializable with respect to each other", [
        "2 transactions x 18 shapes each over 2 keys, symbolic values, preemption bound 1", "preemption bound 2", q=P1, t={"preempt": 2, "budget_s": 1200}, no_validate=True),
     ob("VerifC04_ReaderEndedByAnotherGoroutine", "pkg/engine", "a transaction that has read a key reads it again while another goroutine ends it (what the stale-transaction sweep, connection cleanup and shutdown do) and a waiting writer overwrites the key and commits: the second read fails or returns what the first returned",
        "read-only or read-write reader, 1 key, symbolic values, 2 threads, preemption bound 1", "preemption bound 2", q=P1, t={"preempt": 2, "budget_s": 600}, no_validate=True),
+    ob("VerifC03_FailedCommitNoTrace", "pkg/engine", "isolation from a transaction that never committed: after a commit that failed, a later read-only or read-write transaction sees none of its writes and commits none of them",
+       "3-entry transaction, one oversized entry at position 0..2; later transaction read-only or read-write", reach=("committed", "failed")),
     ob("VerifC17_TxCallSequences", "pkg/transaction", "lock discipline of one transaction: isolation lock held in the right mode from begin to the first finish, every storage access under it, released exactly once; own writes read back; nothing reaches storage before commit",
        "<=4 calls, 2 keys", "<=5 calls"),
 ], [SIMFS, CLOCK, HASH, BLOOM, JSON, RAND, LOG, "Tier B: schedules enumerated exhaustively up to the preemption bound; data symbolic in every schedule"], ["more than 2 concurrent transactions", "writes issued outside transactions (excluded by the property)"])
@@ -104,6 +106,7 @@ check("C05", "scans: exactly the live keys, once, in order, within bounds", [
        "<=3 pre-existing entries, <=2 interleaved writes at any of the scan's steps"),
     ob("VerifC05_TxScanOverlay", "pkg/engine", "committed state (each key absent / in the memtable / flushed) + an open read-write transaction with 0-2 buffered puts/deletes: full scan, range scan, Seek(t) and SeekToLast inside the transaction = live keys with the transaction's writes overlaid, once each, ascending, latest values",
        "2 keys", "3 keys", q={"budget_s": 300}, t={"budget_s": 900}),
+    ob("VerifC11_SeekAcrossBlocks", "pkg/sstable", "the SSTable iterator under a range scan's lower bound: Seek(t) on a table of two data blocks lands on the smallest key >= t (also when t falls between the blocks), Next* yields the rest once, in order", "2 blocks", q={"budget_s": 300}),
     ob("VerifC05_EngineScan", "pkg/engine/storage", "storage.Manager full and range scans after a symbolic program", "<=3 steps, 3 keys, MemTableSize in {1, default}", "<=4 steps", t={}),
 ], [SIMFS, CLOCK, HASH, BLOOM, RAND, LOG, TIERA], [])
 
@@ -127,8 +130,8 @@ check("C07", "no race, crash or hang under concurrent use", [
 ], [SIMFS, CLOCK, HASH, BLOOM, RAND, LOG, "Tier B: vector-clock race detector over the interpreter's memory cells; schedules up to the preemption bound"], ["Close concurrent with other calls", ">2 simultaneous calls"])
 
 check("C08", "sequence numbers strictly increase", [
-    ob("VerifC08_SeqMonotone", "pkg/engine/storage", "programs of put / 2-entry batch / flush / reopen; log read back: first sequence per write strictly increasing; reported last sequence never decreases",
-       "<=4 steps over put / 2-entry batch / flush / reopen / fragmented (33 KB) put, 1 key"),
+    ob("VerifC08_SeqMonotone", "pkg/engine/storage", "programs of put / 2-entry batch / empty batch / flush / reopen; log read back: first sequence per write strictly increasing; reported last sequence never decreases and ends at the number of the last write",
+       "<=4 steps over put / 2-entry batch / empty batch / flush / reopen / fragmented (33 KB) put, 1 key"),
     ob("VerifC08_SeqAcrossDamagedRecovery", "pkg/engine/storage", "log tail cut at every byte offset, reopen + write, close, reopen + write: every acknowledged write above all earlier ones, reported last sequence never decreases",
        "<=2 entries before the cut, every cut offset, two recoveries"),
 ], [SIMFS, CLOCK, HASH, BLOOM, RAND, LOG, TIERA], [])
